@@ -108,6 +108,15 @@ def judge_collection(s, docs, how, strict, tmpdir, label, allow_incomplete=True)
     wit = {'type': 'collection', 'docs': docs, 'strict': strict, 'how': how, 'allow_incomplete': allow_incomplete}
     if mc is None:
         s.hist['collection_rejected:' + type(cerr).__name__] += 1
+        if how != 'strings':
+            # the same documents through from_strings: if THAT collection exists, this one has to exist as well
+            mc_s, _e = K.make_collection(s, docs, 'strings', allow_incomplete, tmpdir)
+            if mc_s is not None:
+                s.evaluations += 1
+                s.custom_violation('collection-result-differs-from-sequential-fold',
+                                   {'how': how, 'strict': strict, 'n_docs': len(docs),
+                                    'cannot_be_built': type(cerr).__name__, 'msg': str(cerr)[:120],
+                                    'note': 'from_strings over the same documents builds'}, wit, status='construct')
         return
     n_readers = len(mc.mos_readers)
     EV.drain()
